@@ -189,8 +189,8 @@ class LogicConv2d(_PersistentWiring, nn.Module):
                 [torch.nn.functional.one_hot(w.argmax(-1), 16).to(w.dtype)
                  for w in self.tree_weights[level]], dim=0
             )
-        if self.forward_sampling in ("gumbel_soft", "gumbel_hard") and not self.temperature > 0:
-            raise ValueError("Temperature must be positive")
+        if self.forward_sampling in ("gumbel_soft", "gumbel_hard") and not 0 < self.temperature < math.inf:
+            raise ValueError("Temperature must be positive and finite")
         weighting_func = {
             "soft": lambda w: soft_raw(w, tau=self.temperature),
             "hard": lambda w: hard_raw(w, tau=self.temperature),
